@@ -16,6 +16,8 @@ Decided structurally, with OPAQUE stub sub-parsers (declared-only parse/flag_nam
 Declined: token-level equality with a reference semantics over all argument vectors (the token scanners
 next_arg / is_flag / use_flag / use_option are imperative iterator code covered by C01's G and LOOP rules).
 """
+import re
+
 from engine import facts as F
 from engine import load
 from engine import lrules as L
@@ -129,6 +131,7 @@ def main(rep, tier, only):
         ("ST-G1", "options::state is copy-constructed only at the back-tracking points of sum and optional", 2),
         ("SUM-3", "combine_errors_impl: missing+missing => missing carrying the SECOND error's state; every other pair => other_error", 4),
         ("CTX-OWN", "every parse_context handed to a parser is built from THAT parser's own option_names()", 3),
+        ("FLAG-TOK", "is_flag classifies a token by its first two characters: empty, no leading dash and a lone `-` are ordinary arguments; `--name` is the long flag `name`; `-name` the short flag `name`; no character is read past the end", 1),
         ("ARGS-MUT", "the argument vector is only mutated by erasing exactly the matched token(s): use_flag one element found by std::find, use_option name+value, pop_arg the positional", 3),
         ("CTOR-V", "parser constructors call their definition validators on the stored members", 3)]:
         rep.rule(rid, text, floor=floor)
@@ -450,6 +453,15 @@ def main(rep, tier, only):
             if q in ("std::remove", "std::remove_if", "std::unique", "std::rotate", "std::sort", "std::partition", "std::stable_partition"):
                 if n.get("args") and from_state_args(n["args"][0]):
                     muts.append((q, n))
+            elif n.get("recv") is None and not q.startswith("fcppt::"):
+                # any other function that receives the argument vector by non-const reference (std::erase, std::erase_if, ...)
+                d = T.callee_decl(u, n)
+                prefs = (d or {}).get("prefs", [])
+                for i, a in enumerate(n.get("args", [])):
+                    ax = T.unwrap(u, a)
+                    if i < len(prefs) and prefs[i] == "lref" and ax is not None and ax.get("k") in ("ref", "call", "member") and from_state_args(a):
+                        muts.append((q, n))
+                        break
         if not muts:
             continue
         key = "ARGS-MUT|" + name.replace("fcppt::options::", "")
@@ -471,6 +483,74 @@ def main(rep, tier, only):
                 if len(a) != 2 or "next(" not in ts[1] or ", 2)" not in ts[1].replace("2L", "2"):
                     why = "erases %s; allowed: %s" % (ts, text)
         (rep.fail if why else rep.ok)("ARGS-MUT", key, u.loc(muts[0][1]["loc"]), name, **({"why": why} if why else {"how": text}))
+    # ---- FLAG-TOK: token classification of is_flag (decision table over the shape of the token)
+    fcfg = sx.Config(inline_prefixes=("fcppt::not_", "fcppt::optional::"), loop_bound=2)
+    for fn in db.fns("fcppt::options::impl::is_flag")[:1]:
+        why = None
+        rows = {}
+        try:
+            ps = sx.Interp(db, fcfg).paths(fn)
+        except sx.Unsupported as e:
+            rep.broken("C03 FLAG-TOK: is_flag outside the interpreted fragment: %s" % e)
+            ps = []
+        for p_ in ps:
+            begins = [i for i, e in enumerate(p_.events, 1) if e[0].split("<")[0].endswith("::begin")]
+            ends = set("#%d:end" % i for i, e in enumerate(p_.events, 1) if e[0].split("<")[0].endswith("::end"))
+            if len(begins) != 1:
+                why = "the token is not scanned from begin() exactly once"
+                break
+            b = "#%d:begin" % begins[0]
+            at_end, dash = {}, {}
+            for a, v in p_.decisions:
+                t = sx.show(a)
+                m = re.match(r"^\((.*) == (#\d+:end)\)$", t)
+                if m and m.group(2) in ends:
+                    k = 0 if m.group(1) == b else (int(re.match(r"^\(%s \+ (\d+)\)$" % re.escape(b), m.group(1)).group(1)) if re.match(r"^\(%s \+ (\d+)\)$" % re.escape(b), m.group(1)) else None)
+                    if k is not None:
+                        at_end[k] = v
+                        continue
+                m = re.match(r"^\(deref\((.*)\) == 45\)$", t)
+                if m:
+                    inner = m.group(1)
+                    k = 0 if inner == b else (int(re.match(r"^\(%s \+ (\d+)\)$" % re.escape(b), inner).group(1)) if re.match(r"^\(%s \+ (\d+)\)$" % re.escape(b), inner) else None)
+                    if k is not None:
+                        dash[k] = v
+                        continue
+                why = "unexpected decision %s" % t
+            if why:
+                break
+            out = sx.show(p_.outcome[1])
+            # shape of the token as far as the path looked at it
+            if at_end.get(0) is True:
+                shape = "empty"
+            elif dash.get(0) is False:
+                shape = "no leading dash"
+            elif dash.get(0) is True and at_end.get(1) is True:
+                shape = "-"
+            elif dash.get(0) is True and dash.get(1) is True:
+                shape = "--name"
+            elif dash.get(0) is True and dash.get(1) is False:
+                shape = "-name"
+            else:
+                why = "a path classifies the token without looking at its first two characters in order (decisions %s)" % [sx.show(a) for a, v in p_.decisions]
+                break
+            if shape in ("--name", "-name") and at_end.get(1) is not False:
+                why = "the second character is read without checking that the token has one"
+                break
+            rows[shape] = out
+        if not why:
+            want = {"empty": "none", "no leading dash": "none", "-": "none", "--name": "long", "-name": "short"}
+            if set(rows) != set(want):
+                why = "token shapes distinguished: %s, expected %s" % (sorted(rows), sorted(want))
+            else:
+                for sh, o in rows.items():
+                    if want[sh] == "none" and not o.endswith(":none"):
+                        why = "a token of shape `%s` is classified as a flag (%s); it is an ordinary argument" % (sh, o)
+                    elif want[sh] == "long" and not (o.endswith(":some") and "strong_typedef{0}" in o and ("next" in o or "+ 2)" in o)):
+                        why = "`--name` is not a long flag whose name starts after the two dashes: %s" % o
+                    elif want[sh] == "short" and not (o.endswith(":some") and "strong_typedef{1}" in o and "+ 1)" in o):
+                        why = "`-name` is not a short flag whose name starts after the dash: %s" % o
+        (rep.fail if why else rep.ok)("FLAG-TOK", "impl::is_flag", F.primary_site(fn), F.fn_name(fn), **({"why": why} if why else {"how": "5-row token table"}))
     # ---- CTOR-V
     want = {"fcppt::options::flag::flag": "fcppt::options::detail::check_short_long_names",
             "fcppt::options::option::option": "fcppt::options::detail::check_short_long_names",
